@@ -146,7 +146,7 @@ def _work(args):
                 out2 = timed_execute(check, make_plan(check, seed, index, tier))
             except BaseException:
                 return {"error": "index %d (recheck): %s" % (index, traceback.format_exc())}
-            if out2.digest != out.digest:
+            if out2.digest != out.digest and out2.digest != "hang":
                 agg["nondet"].append(index)
         agg["n"] += 1
         if agg.get("digests") is not None:
